@@ -142,7 +142,17 @@ func genSession(r *rand.Rand) mSession {
 	for i, n := 0, pick(r, []int{0, 0, 1, 2}); i < n; i++ {
 		a := mAttribute{Friendly: maybe(r, 2, w), Name: "urn:custom:" + w(), Format: maybe(r, 2, func() string { return "urn:oasis:names:tc:SAML:2.0:attrname-format:basic" })}
 		for j, m := 0, pick(r, []int{0, 1, 1, 2}); j < m; j++ {
-			a.Values = append(a.Values, mAttrValue{Type: pick(r, []string{"xs:string", "xs:anyURI", ""}), Value: w()})
+			// the alternative content forms of an AttributeValue: text only, NameID child only, both, neither
+			v := mAttrValue{Type: pick(r, []string{"xs:string", "xs:anyURI", "", "saml:NameIDType"})}
+			shape := r.Intn(6)
+			if shape != 1 && shape != 3 {
+				v.Value = w()
+			}
+			if shape == 1 || shape == 2 {
+				v.NameID = &mNameID{Format: pick(r, []string{"", "urn:oasis:names:tc:SAML:2.0:nameid-format:persistent"}), NameQualifier: maybe(r, 2, w),
+					SPNameQualifier: maybe(r, 2, w), Value: maybe(r, 6, w)}
+			}
+			a.Values = append(a.Values, v)
 		}
 		s.Custom = append(s.Custom, a)
 	}
@@ -156,7 +166,11 @@ func (s mSession) toSAML() *saml.Session {
 	for _, a := range s.Custom {
 		at := saml.Attribute{FriendlyName: a.Friendly, Name: a.Name, NameFormat: a.Format}
 		for _, v := range a.Values {
-			at.Values = append(at.Values, saml.AttributeValue{Type: v.Type, Value: v.Value})
+			av := saml.AttributeValue{Type: v.Type, Value: v.Value}
+			if v.NameID != nil {
+				av.NameID = &saml.NameID{Format: v.NameID.Format, NameQualifier: v.NameID.NameQualifier, SPNameQualifier: v.NameID.SPNameQualifier, Value: v.NameID.Value}
+			}
+			at.Values = append(at.Values, av)
 		}
 		out.CustomAttributes = append(out.CustomAttributes, at)
 	}
@@ -273,9 +287,10 @@ type c06Input struct {
 	viaServe      bool // use ServeSSO instead of the step-by-step API
 	method        string
 	// configuration options of the IdentityProvider that must not change what is emitted
-	customMaker    bool // idp.AssertionMaker set (delegates to DefaultAssertionMaker)
-	customTemplate bool // idp.ResponseFormTemplate set
-	viaHandler     bool // enter through idp.Handler() instead of calling ServeSSO directly
+	zone           *time.Location // non-nil: TimeNow, the session's times and time.Local are in this zone; the request's IssueInstant carries its offset
+	customMaker    bool           // idp.AssertionMaker set (delegates to DefaultAssertionMaker)
+	customTemplate bool           // idp.ResponseFormTemplate set
+	viaHandler     bool           // enter through idp.Handler() instead of calling ServeSSO directly
 }
 
 type countingMaker struct{ calls int }
@@ -303,7 +318,15 @@ type c06Result struct {
 func runResponse(c *Ctx, in c06Input) (res c06Result) { return runResponseWith(c, in, nil) }
 
 // runResponseWith: encSource != nil replaces the recording xmlenc random source.
+var c06Zones = []*time.Location{time.FixedZone("", 5*3600+1800), time.FixedZone("EST", -5*3600), time.FixedZone("", 2*3600), time.FixedZone("NPT", 5*3600+2700), time.FixedZone("", -8*3600)}
+
 func runResponseWith(c *Ctx, in c06Input, encSource io.Reader) (res c06Result) {
+	if in.zone != nil { // the same instants, carried as time.Time values with a non-UTC Location
+		oldLocal := time.Local
+		time.Local = in.zone
+		defer func() { time.Local = oldLocal }()
+		in.now, in.tnow, in.sess.Create = in.now.In(in.zone), in.tnow.In(in.zone), in.sess.Create.In(in.zone)
+	}
 	reg := &stubRegistry{entries: []mRegEntry{{ID: in.regKey, Kind: "found", MD: in.md}}}
 	idp := newIDP(in.cfg, reg, in.sess.toSAML())
 	if in.intermediates {
@@ -530,8 +553,13 @@ func genInput06(r *rand.Rand, kds func(*rand.Rand) []mKeyDesc) (c06Input, map[st
 	key["options"] = fmt.Sprintf("maker=%v,template=%v,handler=%v", in.customMaker, in.customTemplate, in.viaHandler)
 	in.tnow = in.now
 	key["flow"] = "sp-initiated"
+	key["zone"] = "utc"
 	if r.Intn(5) == 0 {
 		key["flow"] = "idp-initiated"
+		if r.Intn(3) == 0 {
+			in.zone = pick(r, c06Zones)
+			key["zone"] = "idp-initiated-zone"
+		}
 		return in, key
 	}
 	// request
@@ -549,6 +577,14 @@ func genInput06(r *rand.Rand, kds func(*rand.Rand) []mKeyDesc) (c06Input, map[st
 	key["issue"] = o.class
 	in.issue = in.now.Add(o.d)
 	w.Issue = sptr(in.issue.UTC().Format("2006-01-02T15:04:05.000Z"))
+	if r.Intn(3) == 0 {
+		in.zone = pick(r, c06Zones)
+		w.Issue = sptr(in.issue.In(in.zone).Format("2006-01-02T15:04:05.000-07:00"))
+		key["zone"] = in.zone.String() + in.issue.In(in.zone).Format("-07:00")
+	} else if r.Intn(4) == 0 { // only the request carries an offset
+		w.Issue = sptr(in.issue.In(pick(r, c06Zones)).Format("2006-01-02T15:04:05.000-07:00"))
+		key["zone"] = "request-only"
+	}
 	// routing: by index (with a different URL in the request on purpose), by URL, by default
 	d := in.md.Descs[r.Intn(len(in.md.Descs))]
 	e := d.ACS[r.Intn(len(d.ACS))]
